@@ -841,25 +841,23 @@ Section Generic.
     - rewrite HI. cbn [length]. lia.
   Qed.
 
-  Theorem generic_roundtrip oracle has_meta simple st0 frames out :
-    e_W st0 = W -> e_H st0 = H -> e_opts st0 = op -> e_recs st0 = [] -> e_fcount st0 = 0 ->
-    e_prev st0 = None ->
-    frames <> [] -> Forall wf_input frames ->
-    close has_meta simple (run_frames fx oracle st0 frames) = Some out ->
-    same_show_by pi W H (eo_loop op) out (playback rt_ll rt_ly fx out) (inputs_of W H frames).
+  (* [close] on a state whose last muxer frame may carry a dispose flag the encoder
+     set just before Muxer.AddFrame refused the next frame (flag [b]). *)
+  Lemma close_sound has_meta simple st ins out init last im ins' d b :
+    invw ins (set_recs st (init ++ [last])) init last im ins' d ->
+    e_recs st = init ++ [with_disp b last] ->
+    close has_meta simple st = Some out ->
+    same_show_by pi W H (eo_loop op) out (playback rt_ll rt_ly fx out) (inputs_of W H ins).
   Proof.
-    intros HW0 HH0 Hop0 Hrecs0 Hfc0 Hprev0 Hne Hwf Hclose.
-    destruct (run_from_new oracle st0 frames HW0 HH0 Hop0 Hrecs0 Hfc0 Hprev0 Hne Hwf)
-      as (init & last & im & ins' & d & Hi).
-    set (st := run_frames fx oracle st0 frames) in *.
-    destruct Hi.
+    intros Hi Hrecs Hclose.
+    destruct Hi. cbn [set_recs e_W e_H e_opts e_recs e_prev e_fcount e_pidx e_prect] in *.
     pose proof (proj1 (Forall_snoc _ _ _) i_ok0) as [Hokinit Hoklast].
     assert (Hlp : length (pad W H im) = Z.to_nat (W * H)) by apply pad_length.
     unfold close in Hclose. rewrite i_prev0, i_W0, i_H0, i_op0, i_fcount0 in Hclose.
-    assert (Hr0 : exists r0 tl, e_recs st = r0 :: tl /\ (init = [] -> r0 = last)).
-    { rewrite i_recs0. destruct init as [|a init']; cbn [app].
-      - exists last, []. split; [reflexivity|auto].
-      - exists a, (init' ++ [last]). split; [reflexivity|]. intros Habs; discriminate. }
+    assert (Hr0 : exists r0 tl, e_recs st = r0 :: tl /\ (init = [] -> r0 = with_disp b last)).
+    { rewrite Hrecs. destruct init as [|a init']; cbn [app].
+      - exists (with_disp b last), []. split; [reflexivity|auto].
+      - exists a, (init' ++ [with_disp b last]). split; [reflexivity|]. intros Habs; discriminate. }
     destruct Hr0 as (r0 & tl & Hr0 & Hr0l). rewrite Hr0 in Hclose.
     destruct ((Z.of_nat (length (init ++ [last])) =? 1) && negb has_meta && simple) eqn:Hstill.
     - (* the single-frame still written by SimpleEncodeFunc *)
@@ -876,13 +874,16 @@ Section Generic.
       + apply key_rec_ok; [apply wf_pad; exact i_im0|exact Hl|unfold max_duration; lia].
       + apply key_sound; [apply wf_pad; exact i_im0|exact Hl|unfold max_duration; lia].
     - rewrite <- Hr0 in Hclose.
+      assert (Han' : mux_animated (e_recs st) = mux_animated (init ++ [last])).
+      { rewrite Hrecs. unfold mux_animated. rewrite !app_length, !existsb_app. reflexivity. }
       destruct (mux_animated (e_recs st)) eqn:Han.
       + (* an animation *)
         injection Hclose as <-.
         assert (Hpb : playback rt_ll rt_ly fx (mkout false false W H (eo_loop op) (e_recs st))
                       = played (e_recs st)) by reflexivity.
-        assert (Hcol : collapse_by pi (played (e_recs st)) = collapse_by pi (inputs_of W H frames)).
-        { unfold collapse_by. f_equal. rewrite i_recs0, played_snoc, collapse_rev_by_snoc. exact i_show0. }
+        assert (Hcol : collapse_by pi (played (e_recs st)) = collapse_by pi (inputs_of W H ins)).
+        { unfold collapse_by. f_equal. rewrite Hrecs, played_snoc, collapse_rev_by_snoc.
+          rewrite cdec_with_disp. exact i_show0. }
         constructor; cbn [out_W out_H out_loop out_still].
         * split; reflexivity.
         * rewrite Hpb, Hcol. reflexivity.
@@ -891,13 +892,259 @@ Section Generic.
         injection Hclose as <-.
         assert (Hinit : init = []).
         { destruct init as [|a init']; [reflexivity|]. exfalso.
-          unfold mux_animated in Han. rewrite i_recs0 in Han. rewrite app_length in Han.
-          cbn [length] in Han. apply orb_false_iff in Han as [Han _]. lia. }
+          symmetry in Han'. unfold mux_animated in Han'. rewrite app_length in Han'.
+          cbn [length] in Han'. apply orb_false_iff in Han' as [Han' _]. lia. }
         subst init. specialize (Hr0l eq_refl). subst r0.
         destruct (i_first0 eq_refl) as (Hx0 & Hy0 & _).
         eapply (single_show false (mkmrec 0 0 (m_img last) (m_lossy last) false false 0) _ (pad W H im) last);
           try reflexivity; try assumption.
         apply (still_sound false last (pad W H im) Hoklast Hx0 Hy0).
         rewrite (with_disp_false last i_disp0). exact i_dec0.
+  Qed.
+
+  Lemma set_recs_same st : set_recs st (e_recs st) = st.
+  Proof. destruct st; reflexivity. Qed.
+
+  Theorem generic_roundtrip oracle has_meta simple st0 frames out :
+    e_W st0 = W -> e_H st0 = H -> e_opts st0 = op -> e_recs st0 = [] -> e_fcount st0 = 0 ->
+    e_prev st0 = None ->
+    frames <> [] -> Forall wf_input frames ->
+    close has_meta simple (run_frames fx oracle st0 frames) = Some out ->
+    same_show_by pi W H (eo_loop op) out (playback rt_ll rt_ly fx out) (inputs_of W H frames).
+  Proof.
+    intros HW0 HH0 Hop0 Hrecs0 Hfc0 Hprev0 Hne Hwf Hclose.
+    destruct (run_from_new oracle st0 frames HW0 HH0 Hop0 Hrecs0 Hfc0 Hprev0 Hne Hwf)
+      as (init & last & im & ins' & d & Hi).
+    pose proof Hi as Hi'. destruct Hi'.
+    apply (close_sound has_meta simple (run_frames fx oracle st0 frames) frames out init last im ins' d false); [| |exact Hclose].
+    - rewrite <- i_recs0, set_recs_same. exact Hi.
+    - rewrite i_recs0, (with_disp_false last i_disp0). reflexivity.
+  Qed.
+
+  (* ---------------------------------------------------------------- *)
+  (* AddFrame calls that return an error (failing frame encoder, muxer frame limit):
+     the file plays back exactly the frames of the calls that returned nil.      *)
+
+  Variable maxf : Z.
+
+  (* the invariant up to the dispose flag the encoder may have set on the last muxer
+     frame just before Muxer.AddFrame refused the next one (only when the muxer is full) *)
+  Definition einv (ins : list (img * Z)) (st : est) : Prop :=
+    exists init last im ins' d b,
+      invw ins (set_recs st (init ++ [last])) init last im ins' d /\
+      e_recs st = init ++ [with_disp b last] /\
+      (b = true -> mux_full maxf st = true).
+
+  Lemma inv_einv ins st : inv ins st -> einv ins st.
+  Proof.
+    intros (init & last & im & ins' & d & Hi). pose proof Hi as Hi'. destruct Hi'.
+    exists init, last, im, ins', d, false. split; [|split].
+    - rewrite <- i_recs0, set_recs_same. exact Hi.
+    - rewrite i_recs0, (with_disp_false last i_disp0). reflexivity.
+    - discriminate.
+  Qed.
+
+  Lemma invw_transfer ins st st2 init last im ins' d :
+    invw ins st init last im ins' d ->
+    e_W st2 = e_W st -> e_H st2 = e_H st -> e_opts st2 = e_opts st -> e_recs st2 = e_recs st ->
+    e_prev st2 = e_prev st -> e_fcount st2 = e_fcount st -> e_prect st2 = e_prect st ->
+    e_pidx st2 = e_pidx st ->
+    invw ins st2 init last im ins' d.
+  Proof.
+    intros Hi E1 E2 E3 E4 E5 E6 E7 E8. destruct Hi.
+    constructor; rewrite ?E1, ?E2, ?E3, ?E4, ?E5, ?E6, ?E7, ?E8; assumption.
+  Qed.
+
+  (* a refused call: countSinceKeyframe / the call counter may have moved, and the last
+     frame may have received the dispose flag if the muxer is full *)
+  Lemma einv_err ins st st2 :
+    einv ins st ->
+    e_W st2 = e_W st -> e_H st2 = e_H st -> e_opts st2 = e_opts st ->
+    e_prev st2 = e_prev st -> e_fcount st2 = e_fcount st -> e_prect st2 = e_prect st ->
+    e_pidx st2 = e_pidx st ->
+    (e_recs st2 = e_recs st \/
+     (mux_full maxf st = true /\ e_recs st2 = mux_set_dispose_bg (e_recs st) (e_pidx st))) ->
+    einv ins st2.
+  Proof.
+    intros (init & last & im & ins' & d & b & Hi & Hrecs & Hb) E1 E2 E3 E5 E6 E7 E8 Hr.
+    assert (Hi2 : invw ins (set_recs st2 (init ++ [last])) init last im ins' d).
+    { apply (invw_transfer ins (set_recs st (init ++ [last]))); try assumption; reflexivity. }
+    destruct Hr as [Hr|[Hfull Hr]].
+    - exists init, last, im, ins', d, b. split; [exact Hi2|]. split; [congruence|].
+      intros Hbt. specialize (Hb Hbt). unfold mux_full in *. rewrite Hr. exact Hb.
+    - exists init, last, im, ins', d, true. split; [exact Hi2|].
+      assert (Hp : e_pidx st = Z.of_nat (length init)) by (destruct Hi; assumption).
+      assert (Hr2 : e_recs st2 = init ++ [with_disp true last]).
+      { rewrite Hr, Hrecs, Hp, mux_set_dispose_bg_last. reflexivity. }
+      split; [exact Hr2|]. intros _. unfold mux_full in *. rewrite Hr2.
+      rewrite Hrecs in Hfull. rewrite app_length in *. exact Hfull.
+  Qed.
+
+  Lemma dup_invw ins st init last im ins' d im2 dur st2 :
+    invw ins st init last im ins' d ->
+    wf_img im2 -> 0 <= dur <= max_duration -> pad W H im2 = pad W H im ->
+    m_dur last + dur < max_duration ->
+    e_W st2 = e_W st -> e_H st2 = e_H st -> e_opts st2 = e_opts st ->
+    e_prev st2 = e_prev st -> e_fcount st2 = e_fcount st -> e_prect st2 = e_prect st ->
+    e_pidx st2 = e_pidx st ->
+    e_recs st2 = init ++ [with_dur (m_dur last + dur) last] ->
+    invw (ins ++ [(im2, dur)]) st2 init (with_dur (m_dur last + dur) last) im2 ins dur.
+  Proof.
+    intros Hi Him2 Hdur Hpad Hlt E1 E2 E3 E5 E6 E7 E8 Hr. destruct Hi.
+    pose proof (proj1 (Forall_snoc _ _ _) i_ok0) as [Hokinit Hoklast].
+    pose proof Hoklast as (_ & _ & _ & _ & _ & _ & _ & _ & Hdl).
+    assert (Hc : map pi (pad W H im2) = map pi (cdec init last)).
+    { rewrite Hpad. symmetry. apply (psim_map pi W H); try lia;
+        [apply cdec_length|apply pad_length|exact i_dec0]. }
+    constructor; rewrite ?E1, ?E2, ?E3, ?E5, ?E6, ?E7, ?E8; try assumption; try reflexivity.
+    - apply Forall_snoc. split; [exact Hokinit|]. apply rec_ok_with_dur; [exact Hoklast|lia].
+    - rewrite i_prev0, Hpad. reflexivity.
+    - rewrite cdec_with_dur, Hpad. exact i_dec0.
+    - rewrite cdec_with_dur. cbn [with_dur m_dur]. apply show_dup; [exact i_show0|exact Hc].
+    - rewrite i_fcount0, !app_length. reflexivity.
+  Qed.
+
+  Definition pre (st : est) : Prop :=
+    e_W st = W /\ e_H st = H /\ e_opts st = op /\ e_recs st = [] /\ e_fcount st = 0 /\
+    e_prev st = None.
+
+  Definition einv0 (acc : list (img * Z)) (st : est) : Prop :=
+    (acc = [] /\ pre st) \/ einv acc st.
+
+  Lemma step_add_e oracle fails acc st f st2 ok :
+    einv0 acc st -> wf_input f ->
+    add_frame_e fx true maxf oracle fails st f = (st2, ok) ->
+    einv0 (if ok then acc ++ [f] else acc) st2.
+  Proof.
+    intros HP Hf Hadd. destruct f as [im2 dur]. pose proof Hf as [Him2 Hdur].
+    cbn [fst snd] in Him2, Hdur. unfold add_frame_e in Hadd.
+    set (oracle' := fun n => eff_orc (oracle n) (fails n)) in *.
+    destruct HP as [[-> Hpre]|He].
+    - (* no frame accepted so far *)
+      destruct Hpre as (HW0 & HH0 & Hop0 & Hrecs0 & Hfc0 & Hprev0). rewrite Hprev0 in Hadd.
+      destruct (ef_a (fails (e_calls st)) || mux_full maxf st); injection Hadd as <- <-.
+      + left. split; [reflexivity|]. repeat split; assumption.
+      + right. apply inv_einv. cbn [app]. unfold add_frame. apply inv_calls.
+        rewrite Hprev0, HW0, HH0. apply step_first; assumption.
+    - right. pose proof He as (init & last & im & ins' & d & b & Hi & Hrecs & Hb).
+      pose proof Hi as Hi'. destruct Hi'.
+      cbn [set_recs e_W e_H e_opts e_recs e_prev e_fcount e_pidx e_prect]
+        in i_W0, i_H0, i_op0, i_recs0, i_pidx0, i_prect0, i_prev0, i_fcount0.
+      (* a successful call on a state without the stray flag *)
+      assert (Hok : mux_full maxf st = false ->
+                    einv (acc ++ [(im2, dur)]) (add_frame fx oracle' st (im2, dur))).
+      { intros Hnf. apply inv_einv. apply step_add; [|exact Hf].
+        exists init, last, im, ins', d.
+        destruct b; [rewrite (Hb eq_refl) in Hnf; discriminate|].
+        rewrite (with_disp_false last i_disp0) in Hrecs. rewrite <- Hrecs, set_recs_same in Hi. exact Hi. }
+      rewrite i_prev0, i_W0, i_H0 in Hadd.
+      destruct (canvas_eqb (pad W H im) (pad W H im2)) eqn:Heq.
+      + (* a repeat of the last picture *)
+        apply canvas_eqb_eq in Heq. rewrite Hrecs, i_pidx0, mux_dur_last in Hadd.
+        change (m_dur (with_disp b last)) with (m_dur last) in Hadd.
+        destruct (Z.ltb_spec (m_dur last + dur) max_duration) as [Hlt|Hge].
+        * (* merged: possible even when the muxer is full *)
+          injection Hadd as <- <-.
+          exists init, (with_dur (m_dur last + dur) last), im2, acc, dur, b.
+          assert (Hr2 : e_recs (add_frame fx oracle' st (im2, dur))
+                        = init ++ [with_disp b (with_dur (m_dur last + dur) last)]).
+          { unfold add_frame. rewrite i_prev0, i_W0, i_H0.
+            replace (canvas_eqb (pad W H im) (pad W H im2)) with true
+              by (symmetry; apply canvas_eqb_eq; exact Heq).
+            unfold increase_prev_duration. rewrite Hrecs, i_pidx0, mux_dur_last.
+            change (m_dur (with_disp b last)) with (m_dur last).
+            destruct (Z.ltb_spec (m_dur last + dur) max_duration); [|lia].
+            cbn [set_calls e_recs]. rewrite mux_set_dur_last.
+            pose proof (proj2 (proj1 (Forall_snoc _ _ _) i_ok0)) as (_ & _ & _ & _ & _ & _ & _ & _ & Hdl).
+            rewrite clamp_dur_id by lia. reflexivity. }
+          split; [|split].
+          -- apply (dup_invw acc (set_recs st (init ++ [last])) init last im ins' d); try assumption;
+               try reflexivity; try (symmetry; exact Heq);
+               unfold add_frame; rewrite i_prev0, i_W0, i_H0;
+               replace (canvas_eqb (pad W H im) (pad W H im2)) with true
+                 by (symmetry; apply canvas_eqb_eq; exact Heq);
+               unfold increase_prev_duration; rewrite Hrecs, i_pidx0, mux_dur_last;
+               change (m_dur (with_disp b last)) with (m_dur last);
+               destruct (Z.ltb_spec (m_dur last + dur) max_duration); try lia;
+               cbn [set_recs set_calls e_W e_H e_opts e_recs e_prev e_fcount e_pidx e_prect];
+               rewrite ?i_pidx0; reflexivity.
+          -- exact Hr2.
+          -- intros Hbt. specialize (Hb Hbt).
+             assert (Hmf : forall s1 s2, length (e_recs s1) = length (e_recs s2) ->
+                                         mux_full maxf s1 = mux_full maxf s2)
+               by (intros s1 s2 Hl; unfold mux_full; rewrite Hl; reflexivity).
+             assert (Hl : length (e_recs (add_frame fx oracle' st (im2, dur))) = length (e_recs st))
+               by (rewrite Hr2, Hrecs, !app_length; reflexivity).
+             exact (eq_trans (Hmf _ _ Hl) Hb).
+        * destruct (ef_a (fails (e_calls st)) || mux_full maxf st) eqn:Hfl; injection Hadd as <- <-.
+          -- apply (einv_err acc st); try reflexivity; [exact He|left; reflexivity].
+          -- apply Hok. apply orb_false_iff in Hfl. apply Hfl.
+      + cbn [set_since e_since e_opts] in Hadd.
+        destruct (eo_kmax (e_opts st) <=? e_since st + 1).
+        * destruct (ef_a (fails (e_calls st)) || mux_full maxf st) eqn:Hfl; injection Hadd as <- <-.
+          -- apply (einv_err acc st); try reflexivity; [exact He|left; reflexivity].
+          -- apply Hok. apply orb_false_iff in Hfl. apply Hfl.
+        * destruct (ef_a (fails (e_calls st))).
+          { injection Hadd as <- <-. apply (einv_err acc st); try reflexivity; [exact He|left; reflexivity]. }
+          destruct (candidate fx (e_opts st) W H (pad W H im) (pad W H im2)) as [[rN bnN] imN].
+          destruct (candidate fx (e_opts st) W H (fill_impl W H (pad W H im) (e_prect st)) (pad W H im2))
+            as [[rB bnB] imB].
+          match type of Hadd with (if ?c then _ else _) = _ => destruct c end.
+          -- destruct (ef_k (fails (e_calls st)) || mux_full maxf st) eqn:Hfl; injection Hadd as <- <-.
+             ++ apply (einv_err acc st); try reflexivity; [exact He|left; reflexivity].
+             ++ apply Hok. apply orb_false_iff in Hfl. apply Hfl.
+          -- destruct (mux_full maxf st) eqn:Hfull; injection Hadd as <- <-.
+             ++ apply (einv_err acc st); try exact He;
+                  try (match goal with |- context [if ?c then _ else _] => destruct c end; reflexivity).
+                match goal with |- context [if ?c then _ else _] => destruct c end;
+                  [right; split; [exact Hfull|reflexivity]|left; reflexivity].
+             ++ apply Hok. reflexivity.
+  Qed.
+
+  Lemma run_e_inv oracle fails fs : forall st acc0 stf acc,
+    einv0 acc0 st -> Forall wf_input fs ->
+    run_e fx true maxf oracle fails st fs = (stf, acc) ->
+    einv0 (acc0 ++ acc) stf.
+  Proof.
+    induction fs as [|f rest IH]; intros st acc0 stf acc HP Hwf Hrun.
+    - cbn in Hrun. injection Hrun as <- <-. rewrite app_nil_r. exact HP.
+    - inversion Hwf as [|? ? Hf Hrest]; subst. cbn [run_e] in Hrun.
+      destruct (add_frame_e fx true maxf oracle fails st f) as [st1 ok] eqn:Hadd.
+      destruct (run_e fx true maxf oracle fails st1 rest) as [stf' acc'] eqn:Hrest'.
+      injection Hrun as <- <-.
+      pose proof (step_add_e oracle fails acc0 st f st1 ok HP Hf Hadd) as HP1.
+      specialize (IH st1 _ stf' acc' HP1 Hrest Hrest').
+      destruct ok; [rewrite <- app_assoc in IH|]; exact IH.
+  Qed.
+
+  Theorem generic_error_roundtrip oracle fails has_meta simple st0 frames stf acc out :
+    e_W st0 = W -> e_H st0 = H -> e_opts st0 = op -> e_recs st0 = [] -> e_fcount st0 = 0 ->
+    e_prev st0 = None ->
+    Forall wf_input frames ->
+    run_e fx true maxf oracle fails st0 frames = (stf, acc) ->
+    close has_meta simple stf = Some out ->
+    same_show_by pi W H (eo_loop op) out (playback rt_ll rt_ly fx out) (inputs_of W H acc).
+  Proof.
+    intros HW0 HH0 Hop0 Hrecs0 Hfc0 Hprev0 Hwf Hrun Hclose.
+    assert (HP0 : einv0 [] st0) by (left; split; [reflexivity|repeat split; assumption]).
+    pose proof (run_e_inv oracle fails frames st0 [] stf acc HP0 Hwf Hrun) as HP. cbn [app] in HP.
+    destruct HP as [[_ Hpre]|(init & last & im & ins' & d & b & Hi & Hrecs & _)].
+    - destruct Hpre as (_ & _ & _ & Hr & _). unfold close in Hclose. rewrite Hr in Hclose. discriminate.
+    - exact (close_sound has_meta simple stf acc out init last im ins' d b Hi Hrecs Hclose).
+  Qed.
+
+  (* nothing is written when every call was refused *)
+  Lemma all_refused_nothing_written oracle fails has_meta simple st0 frames stf :
+    e_W st0 = W -> e_H st0 = H -> e_opts st0 = op -> e_recs st0 = [] -> e_fcount st0 = 0 ->
+    e_prev st0 = None -> Forall wf_input frames ->
+    run_e fx true maxf oracle fails st0 frames = (stf, []) ->
+    close has_meta simple stf = None.
+  Proof.
+    intros HW0 HH0 Hop0 Hrecs0 Hfc0 Hprev0 Hwf Hrun.
+    assert (HP0 : einv0 [] st0) by (left; split; [reflexivity|repeat split; assumption]).
+    pose proof (run_e_inv oracle fails frames st0 [] stf [] HP0 Hwf Hrun) as HP. cbn [app] in HP.
+    destruct HP as [[_ Hpre]|(init & last & im & ins' & d & b & Hi & _)].
+    - destruct Hpre as (_ & _ & _ & Hr & _). unfold close. rewrite Hr. reflexivity.
+    - destruct Hi. destruct ins'; discriminate.
   Qed.
 End Generic.
